@@ -14,7 +14,7 @@ import (
 func init() {
 	register(&Prop{
 		ID: "C15glue",
-		Rule: "template bodies built from pieces {text over letters < > space tab CR LF é à 々, print tag, {sp} {nil} {lb} {rb} {\\n} {\\t}, {literal} block, /* */ comment, ' // ' line comment, text containing // after a non-space} with no two text pieces adjacent; " +
+		Rule: "template bodies built from pieces {text over letters < > space tab CR LF é à 々, print tag, {sp} {nil} {lb} {rb} {\\n} {\\t}, {literal} block, /* */ comment, /** */ doc comment, ' // ' line comment, text containing // after a non-space} with no two text pieces adjacent; " +
 			"rendered through the real compiler; oracle: output = concatenation of joinLines(text, prev-is-comment, next-is-comment) / tag output / literal characters; non-trivial = the body has a comment or a literal and a text run with a line break",
 		Direct: directC15glue,
 	})
@@ -133,6 +133,12 @@ func directC15glue(g *G, rep *Report) {
 				lit := []string{" x  \n y ", "{$notatag}", "a // b\n/* c */", "<  >", "{{}}", "é\tà", "\n", " \n ", "\r\n", "  ", "\t\n\t", "\r", " ", ""}[r.Intn(14)]
 				pieces = append(pieces, gluePiece{src: "{literal}" + lit + "{/literal}", out: lit, kind: "tag"})
 			case c == 8:
+				if r.Intn(4) == 0 {
+					// a doc comment inside a body is its own token: it renders nothing and, unlike /* */, does not trim the text around it
+					pieces = append(pieces, gluePiece{src: []string{"/** doc */", "/** @param x */", "/** multi\n * line\n */"}[r.Intn(3)], kind: "doc"})
+					hasComment = true
+					break
+				}
 				pieces = append(pieces, gluePiece{src: []string{"/* c */", "/* multi\n line */", "/* */", "/**/", "/*/ x */", "/* ** */"}[r.Intn(6)], kind: "comment", comment: true})
 				hasComment = true
 			default:
@@ -197,6 +203,11 @@ func directC15glue(g *G, rep *Report) {
 		out, class := renderSafe(reg, "n.t", toData(map[string]interface{}{"u": "U"}), nil)
 		rep.Distribution["render:"+class]++
 		if class != "OK" {
+			// nothing in these bodies can fail at run time (the only print is {$u} or a literal): a comment or text that makes rendering fail contributed something
+			if len(rep.Violations) < 10 {
+				rep.Violations = append(rep.Violations, Viol{Key: "glue:render-fails", What: "a template body of text, print tags, special-character commands, literal blocks and comments compiles but does not render: " + out,
+					Req: req("c15glue", hxs(src)), Note: quote([]byte(body.String())), Impl: class + " " + out, Want: quote([]byte(want.String()))})
+			}
 			continue
 		}
 		if out != want.String() {
